@@ -497,6 +497,7 @@ func ruleDT3(c *Ctx) {
 	c.check(len(callsNamed(rd, "(*bufio.Scanner).Buffer")) == 1, fn, "line-limit-set", c.FnPos(rd), "scanner buffer limit is set explicitly", "the scanner's line limit is not set (default 64 KiB would reject valid long lines)")
 	okLong := false
 	for _, bf := range branchFacts(rd) {
+		curEnv = bf.A.Env
 		if bf.A.Kind != "bool" || !bf.Holds {
 			continue
 		}
@@ -840,6 +841,7 @@ func (c *Ctx) compactGuards(ce *ssa.Function) {
 		// an inequality test on task.<field> whose "differs" edge reaches the emission block without another branch skipping it
 		ok := false
 		for _, bf := range branchFacts(ce) {
+			curEnv = bf.A.Env
 			if bf.A.Kind != "cmp" || bf.A.Op != token.EQL || bf.Holds {
 				continue
 			}
@@ -907,6 +909,7 @@ func (c *Ctx) compactGuards(ce *ssa.Function) {
 		}
 		cond := ""
 		for _, bf := range branchFacts(ce) {
+			curEnv = bf.A.Env
 			if !(bf.E.To() == em.Call.Block() || bf.E.To().Dominates(em.Call.Block())) {
 				continue
 			}
@@ -1046,14 +1049,14 @@ func ruleDT6(c *Ctx) {
 		}
 	}
 	replayTable := map[string][]string{
-		"ergo.Task.ID":       {"ergo.NewTaskEvent.ID"},
-		"ergo.Task.UUID":     {"ergo.NewTaskEvent.UUID"},
-		"ergo.Task.EpicID":   {"ergo.NewTaskEvent.EpicID", "ergo.EpicAssignEvent.EpicID"},
-		"ergo.Task.State":    {"ergo.NewTaskEvent.State", "ergo.StateEvent.NewState"},
-		"ergo.Task.Title":    {"ergo.NewTaskEvent.Title", "ergo.TitleUpdateEvent.Title"},
-		"ergo.Task.Body":     {"ergo.NewTaskEvent.Body", "ergo.BodyUpdateEvent.Body"},
-		"ergo.Task.ClaimedBy": {"ergo.ClaimEvent.AgentID", `const:""`},
-		"ergo.Task.IsEpic":   {"cmp"},
+		"ergo.Task.ID":                  {"ergo.NewTaskEvent.ID"},
+		"ergo.Task.UUID":                {"ergo.NewTaskEvent.UUID"},
+		"ergo.Task.EpicID":              {"ergo.NewTaskEvent.EpicID", "ergo.EpicAssignEvent.EpicID"},
+		"ergo.Task.State":               {"ergo.NewTaskEvent.State", "ergo.StateEvent.NewState"},
+		"ergo.Task.Title":               {"ergo.NewTaskEvent.Title", "ergo.TitleUpdateEvent.Title"},
+		"ergo.Task.Body":                {"ergo.NewTaskEvent.Body", "ergo.BodyUpdateEvent.Body"},
+		"ergo.Task.ClaimedBy":           {"ergo.ClaimEvent.AgentID", `const:""`},
+		"ergo.Task.IsEpic":              {"cmp"},
 		"ergo.Result.Summary":           {"ergo.ResultEvent.Summary"},
 		"ergo.Result.Path":              {"ergo.ResultEvent.Path"},
 		"ergo.Result.Sha256AtAttach":    {"ergo.ResultEvent.Sha256AtAttach"},
@@ -1062,27 +1065,27 @@ func ruleDT6(c *Ctx) {
 	}
 	check(re, replayTable, "replay")
 	compactTable := map[string][]string{
-		"ergo.NewTaskEvent.ID":            {"ergo.Task.ID"},
-		"ergo.NewTaskEvent.UUID":          {"ergo.Task.UUID"},
-		"ergo.NewTaskEvent.EpicID":        {"ergo.Task.EpicID", "ergo.TaskMeta.CreatedEpicID", "phi(ergo.Task.EpicID|ergo.TaskMeta.CreatedEpicID)"},
-		"ergo.NewTaskEvent.State":         {"ergo.Task.State", "ergo.TaskMeta.CreatedState"},
-		"ergo.NewTaskEvent.Title":         {"ergo.Task.Title", "ergo.TaskMeta.CreatedTitle"},
-		"ergo.NewTaskEvent.Body":          {"ergo.Task.Body", "ergo.TaskMeta.CreatedBody"},
-		"ergo.TitleUpdateEvent.ID":        {"ergo.Task.ID"},
-		"ergo.TitleUpdateEvent.Title":     {"ergo.Task.Title"},
-		"ergo.BodyUpdateEvent.ID":         {"ergo.Task.ID"},
-		"ergo.BodyUpdateEvent.Body":       {"ergo.Task.Body"},
-		"ergo.EpicAssignEvent.ID":         {"ergo.Task.ID"},
-		"ergo.EpicAssignEvent.EpicID":     {"ergo.Task.EpicID"},
-		"ergo.ClaimEvent.ID":              {"ergo.Task.ID"},
-		"ergo.ClaimEvent.AgentID":         {"ergo.Task.ClaimedBy"},
-		"ergo.StateEvent.ID":              {"ergo.Task.ID"},
-		"ergo.StateEvent.NewState":        {"ergo.Task.State"},
-		"ergo.ResultEvent.TaskID":         {"ergo.Task.ID"},
-		"ergo.ResultEvent.Summary":        {"ergo.Result.Summary"},
-		"ergo.ResultEvent.Path":           {"ergo.Result.Path"},
-		"ergo.ResultEvent.Sha256AtAttach": {"ergo.Result.Sha256AtAttach"},
-		"ergo.ResultEvent.MtimeAtAttach":  {"ergo.Result.MtimeAtAttach"},
+		"ergo.NewTaskEvent.ID":               {"ergo.Task.ID"},
+		"ergo.NewTaskEvent.UUID":             {"ergo.Task.UUID"},
+		"ergo.NewTaskEvent.EpicID":           {"ergo.Task.EpicID", "ergo.TaskMeta.CreatedEpicID", "phi(ergo.Task.EpicID|ergo.TaskMeta.CreatedEpicID)"},
+		"ergo.NewTaskEvent.State":            {"ergo.Task.State", "ergo.TaskMeta.CreatedState"},
+		"ergo.NewTaskEvent.Title":            {"ergo.Task.Title", "ergo.TaskMeta.CreatedTitle"},
+		"ergo.NewTaskEvent.Body":             {"ergo.Task.Body", "ergo.TaskMeta.CreatedBody"},
+		"ergo.TitleUpdateEvent.ID":           {"ergo.Task.ID"},
+		"ergo.TitleUpdateEvent.Title":        {"ergo.Task.Title"},
+		"ergo.BodyUpdateEvent.ID":            {"ergo.Task.ID"},
+		"ergo.BodyUpdateEvent.Body":          {"ergo.Task.Body"},
+		"ergo.EpicAssignEvent.ID":            {"ergo.Task.ID"},
+		"ergo.EpicAssignEvent.EpicID":        {"ergo.Task.EpicID"},
+		"ergo.ClaimEvent.ID":                 {"ergo.Task.ID"},
+		"ergo.ClaimEvent.AgentID":            {"ergo.Task.ClaimedBy"},
+		"ergo.StateEvent.ID":                 {"ergo.Task.ID"},
+		"ergo.StateEvent.NewState":           {"ergo.Task.State"},
+		"ergo.ResultEvent.TaskID":            {"ergo.Task.ID"},
+		"ergo.ResultEvent.Summary":           {"ergo.Result.Summary"},
+		"ergo.ResultEvent.Path":              {"ergo.Result.Path"},
+		"ergo.ResultEvent.Sha256AtAttach":    {"ergo.Result.Sha256AtAttach"},
+		"ergo.ResultEvent.MtimeAtAttach":     {"ergo.Result.MtimeAtAttach"},
 		"ergo.ResultEvent.GitCommitAtAttach": {"ergo.Result.GitCommitAtAttach"},
 	}
 	check(ce, compactTable, "compaction")
@@ -1217,6 +1220,7 @@ func ruleDT7(c *Ctx) {
 		cnt[what]++
 		bad := ""
 		for _, bf := range branchFacts(re) {
+			curEnv = bf.A.Env
 			if !bf.Holds {
 				continue // examine each If once (via its holding edge)
 			}
